@@ -44,6 +44,9 @@ ASSUMPTIONS = [
     '(PyYAML limits simple keys to 1024 characters)',
     'datetime values project to isoformat(" ") as pinned by '
     'tests/test_builtin_types.py::test_dump_datetime_json',
+    'a model whose sweetener removes default values drops -0.0 for a default '
+    'of 0.0 (== comparison) and gets 0.0 back: that sign change is the '
+    'model\'s doing and not judged by the round-trip clause (as in C05)',
 ]
 
 
